@@ -570,7 +570,13 @@ func (x *gcRunner) waitSettled(bound time.Duration) {
 
 func waitWG(wg *sync.WaitGroup) chan struct{} {
 	ch := make(chan struct{})
-	go func() { wg.Wait(); close(ch) }()
+	go func() {
+		defer close(ch)
+		// a waiter that is woken while the owner already counts up again panics ("WaitGroup is reused before previous Wait has
+		// returned"): the counter did reach zero, which is all this helper promises
+		defer func() { _ = recover() }()
+		wg.Wait()
+	}()
 	return ch
 }
 
